@@ -26,7 +26,7 @@ func parseIP(s string) net.IP { return net.ParseIP(s).To4() }
 
 // Reply is one scripted tracker reply.
 type Reply struct {
-	// Kind: ok fail http4xx http5xx garbage oversize noreply (udp: wrongtx short error dup)
+	// Kind: ok fail http4xx http5xx garbage oversize noreply (udp: wrongtx short error dup stray)
 	Kind        string        `json:"kind"`
 	Interval    *int64        `json:"interval,omitempty"`     // nil = key absent (http) / 0 (udp)
 	MinInterval *int64        `json:"min_interval,omitempty"` // http only
@@ -425,6 +425,20 @@ func (t *TrackerActor) udpLoop() {
 				t.record(a)
 				t.sendUDP(mk(tx, iv), from, d)
 				t.sendUDP(mk(tx, iv), from, d+time.Millisecond)
+			case "stray":
+				// the valid reply with a datagram of another transaction right behind it (or
+				// right before it): both are in the client's socket queue at the same time
+				a.ReplyOK = true
+				a.Interval = iv
+				t.record(a)
+				if t.rng.Chance(0.3) {
+					t.sendUDP(mk(tx^0x5a5a5a5a, iv), from, d)
+				}
+				t.sendUDP(mk(tx, iv), from, d)
+				t.sendUDP(mk(tx^0x5a5a5a5a, iv), from, d)
+				if t.rng.Chance(0.5) {
+					t.sendUDP(mk(tx+1, iv), from, d)
+				}
 			case "wrongtx":
 				t.record(a)
 				t.sendUDP(mk(tx+1, iv), from, d)
